@@ -354,6 +354,13 @@ class EscapeAnalysis:
         if ext == "email.utils.parsedate_to_datetime" and call.args and T(call.args[0]):
             self.fact_points += 1
             add(call, "ValueError", "parsedate_to_datetime() of client text", "fact")
+            add(call, "OverflowError", "parsedate_to_datetime() of client text: a year such as 99999999999999999999 raises OverflowError (an ArithmeticError, not a ValueError)", "fact")
+            return
+        if ext in ("os.path.realpath", "os.lstat", "os.readlink", "os.path.getsize", "os.path.getmtime", "os.path.samefile", "os.chdir", "os.access") and call.args:
+            t = T(call.args[0])
+            if t:
+                self.fact_points += 1
+                add(call, "ValueError", f"{ext}() of a client-derived path raises ValueError for an embedded NUL byte (path from {sorted(t)})", "fact")
             return
 
     def _facts_unpack(self, fn: FuncInfo, node: ast.Assign, T, add) -> None:
@@ -377,6 +384,24 @@ class EscapeAnalysis:
     def _facts_subscript(self, fn: FuncInfo, node: ast.Subscript, T, add) -> None:
         # dict-literal / module-constant dict indexed by a client-derived key
         base = node.value
+        # a string-keyed lookup in a mapping built from client text (e.g. parsed header parameters)
+        if isinstance(node.slice, ast.Constant) and isinstance(node.slice.value, str) and isinstance(base, (ast.Name, ast.Attribute)) and T(base):
+            root = base
+            while isinstance(root, ast.Attribute):
+                root = root.value
+            gateway = isinstance(root, ast.Name) and root.id in ("scope", "environ", "message", "msg", "event") or ast.unparse(base) in ("self._scope", "self._environ", "self")
+            if not gateway:
+                key = node.slice.value
+                bt = ast.unparse(base)
+                guarded = False
+                for n in ast.walk(fn.node):
+                    if isinstance(n, ast.Compare) and len(n.ops) == 1 and isinstance(n.ops[0], (ast.In, ast.NotIn)) and isinstance(n.left, ast.Constant) and n.left.value == key \
+                            and ast.unparse(n.comparators[0]) == bt and getattr(n, "lineno", 0) <= getattr(node, "lineno", 0):
+                        guarded = True
+                if not guarded:
+                    self.fact_points += 1
+                    add(node, "KeyError", f"mapping built from client text indexed with the constant key {key!r} that the client may omit (from {sorted(T(base))})", "fact")
+            return
         if isinstance(base, ast.Dict) and not isinstance(node.slice, ast.Slice):
             t = T(node.slice)
             if t:
